@@ -53,7 +53,7 @@ class C09(scen.WorldProp):
                   "earlier in r has rung r+1 times and every human bell r times. non-trivial = humans held Wheatley up")
 
     def cases(self, rng, tier):
-        n = 40 if tier == "quick" else 400
+        n = 200 if tier == "quick" else 2000
         for i in range(n):
             N = rng.choice([4, 6, 6, 8])
             humans = sorted(rng.sample(range(1, N + 1), rng.randint(1, N - 1)))
